@@ -356,9 +356,31 @@ def monitor_ntr(t, o, st, out):
            sum(abs(QJ[k]) * (abs(P_[j] / Fr(γ)) + abs(Fr(hvf)) * sum(abs(H[j][i]) * abs(q0[i]) for i in range(n)))
                for k, j in enumerate(J)))
     tol2 = Fr(16 * (n + 3)) * Fr(EPS) * mag + Fr(2.0 ** -1070)
-    if abs(Fr(val) - m) > tol2:
-        return (f'Newton-TR returned {val!r}, model decrease of the combined step '
-                f'r_Jᵀq_J + ½q_JᵀH_JJ q_J − ‖p_K‖²/(2γ) = {float(m)!r}')
+    # The property's own words (newtonTR_value_is_full_model): the value of the FULL quadratic model
+    #   m(q) = ⟨R_γ, q⟩ + ½⟨q, B q⟩,  R_γ = −p/γ,  B = [H_JJ, f·H_JK; f·H_KJ, I/γ]  (f = hessian_vec_factor)
+    # at the COMBINED step q the call wrote (q_K = p_K, q_J = Steihaug step), built from the full matrix H and
+    # the full returned vector — not from the reduced quantities r_J, H_JJ the code works with.
+    Q = [Fr(a) for a in q]
+    Jset = set(J)
+    Hsym = all(H[a][b] == H[b][a] for a in range(n) for b in range(a))
+
+    def Bfull(a, b):
+        if a in Jset and b in Jset:
+            return H[a][b]
+        if a in Jset or b in Jset:
+            return Fr(hvf) * H[a][b]
+        return 1 / Fr(γ) if a == b else Fr(0)
+    m_full = (sum(-P_[i] / Fr(γ) * Q[i] for i in range(n)) +
+              sum(Q[a] * Bfull(a, b) * Q[b] for a in range(n) for b in range(n)) / 2)
+    if Hsym and m_full != m:
+        return 'monitor self-check: full model at the combined step ≠ reduced expression (exact arithmetic)'
+    if abs(Fr(val) - (m_full if Hsym else m)) > tol2:
+        return (f'Newton-TR returned {val!r}, but the full quadratic model ⟨−p/γ, q⟩ + ½⟨q, B q⟩ '
+                f'(B = [H_JJ, f·H_JK; f·H_KJ, I/γ]) at the combined step q it wrote is {float(m_full)!r} '
+                f'(reduced form r_Jᵀq_J + ½q_JᵀH_JJ q_J − ‖p_K‖²/(2γ) = {float(m)!r})')
+    STATS['ntr_full_model_checked'] = STATS.get('ntr_full_model_checked', 0) + Hsym
+    STATS['ntr_coupling_nonzero'] = STATS.get('ntr_coupling_nonzero', 0) + bool(
+        Hsym and hvf != 0 and any(Hq0[j] != 0 for j in J) and K)
     return None
 
 
